@@ -540,7 +540,7 @@ STRUCTURED = {
     "C11": [(shutdown_grid, 0.3), (deadlines, 0.15), (nested_gap, 0.1), (nested_abort_ties, 0.1)],
     "C12": [(joins, 0.15), (small_perms, 0.15), (tie_groups, 0.15), (window_ties, 0.25)],
     "C13": [(shutdown_grid, 0.5)],
-    "C14": [(window_failures, 0.15), (critical_instants, 0.15)],
+    "C14": [(window_failures, 0.15), (critical_instants, 0.1), (window_ties, 0.15)],
 }
 
 
@@ -568,7 +568,7 @@ def scenarios(prop, count, seed):
         sc["snap"] = prop == "C14"
         hrn = sc["harness"]
         n = sc["cfg"]["n"]
-        hrn["prep"] = rng.choice([0, 0, 0, 1, 2, 3, 4])
+        hrn["prep"] = rng.choice([0, 0, 0, 1, 2, 3, 3, 4, 4])
         hrn["emptymsg"] = rng.random() < 0.3
         hrn["rterr"] = rng.random() < 0.3
         hrn["lateattr"] = rng.random() < 0.2
